@@ -5,6 +5,8 @@
 -/
 import Props.Lemmas.C08_Parse
 
+set_option linter.unusedSimpArgs false
+
 namespace Pypyr.Format
 
 /-- A field name that is neither empty (auto-numbered) nor all digits (positional). -/
@@ -19,6 +21,22 @@ structure GoodField (f : FieldT) : Prop where
   spec : NoBrace f.spec
 
 def GoodTups (ts : List Tup) : Prop := ∀ t ∈ ts, ∀ f, t.field = some f → GoodField f
+
+/-- Boolean check of `GoodTups`, for concrete examples. -/
+def goodTupsB (ts : List Tup) : Bool :=
+  ts.all fun t => match t.field with
+    | none => true
+    | some f => !f.name.isEmpty && !isDigitStr f.name && f.spec.all (fun c => c ≠ '{' && c ≠ '}')
+
+theorem goodTups_of_check (ts : List Tup) (h : goodTupsB ts = true) : GoodTups ts := by
+  intro t ht f hf
+  unfold goodTupsB at h
+  have := List.all_eq_true.mp h t ht
+  simp only [hf, Bool.and_eq_true, Bool.not_eq_true', List.all_eq_true, decide_eq_true_eq] at this
+  obtain ⟨⟨h1, h2⟩, h3⟩ := this
+  refine ⟨⟨?_, h2⟩, ?_⟩
+  · intro hn; rw [hn] at h1; simp at h1
+  · intro c hc; have := h3 c hc; simpa using this
 
 theorem autoNumber_named (name : List Char) (auto : Option Nat) (h : Named name) :
     autoNumber name auto = .ok (name, auto) := by
@@ -51,7 +69,7 @@ theorem RSpec.parse_isRecursive (spec : List Char) : (RSpec.parse spec).isRecurs
 theorem RSpec.parse_isFlat (spec : List Char) : (RSpec.parse spec).isFlat = Spec.isFf spec := by
   unfold RSpec.parse Spec.isFf
   by_cases h1 : spec.take 2 = ['r', 'f']
-  · simp [h1, rf_ne_ff]
+  · simp [h1]
   · by_cases h2 : spec.take 2 = ['f', 'f'] <;> simp [h1, h2]
 
 theorem RSpec.parse_hasRecursed (spec : List Char) : (RSpec.parse spec).hasRecursed = false := by
@@ -119,9 +137,9 @@ theorem ktField_good (fi : Bool → Val → Except Exc Val) (ctx : Ctx) (isRec :
       | error e => simp
       | ok o =>
         simp only []
-        cases convertField o f.conv <;> simp
+        cases hcv : convertField o f.conv <;> simp [hcv]
     · simp only [hc]
-      cases convertField obj f.conv <;> simp
+      cases hcv : convertField obj f.conv <;> simp [hcv]
 
 /-! ## the loop -/
 
@@ -243,41 +261,171 @@ theorem resolve_entries (fi : Bool → Val → Except Exc Val) (ctx : Ctx) (isRe
         simp only [rsOf_formatSpec]
         cases mapE (entryOf fi ctx isRec) ps <;> simp [Entry.toSum, rsOf_formatSpec]
 
+/-- A single expression with a conversion is in the documented grammar only when it is recursive
+    (`rf`, or inside a recursive format) or flat (`ff`): otherwise the code formats the converted text. -/
+def ConvOk (isRec : Bool) (ps : List Part) : Prop :=
+  ∀ f, ps = [.fld f] → f.conv = none ∨ Spec.isRf f.spec = true ∨ Spec.isFf f.spec = true ∨ isRec = true
+
+theorem isRf_isFf_excl (spec : List Char) (h : Spec.isRf spec = true) : Spec.isFf spec = false := by
+  unfold Spec.isRf Spec.isFf at *
+  simp only [decide_eq_true_eq] at h
+  simp [h, rf_ne_ff]
+
+theorem convertField_none (v : Val) : convertField v none = .ok v := rfl
+
+/-- the last step of a single expression: only a format spec turns the object into text -/
+def finText (o : Val) (spec : List Char) : Except Exc Val :=
+  if spec = [] then .ok o
+  else match formatField o spec with
+    | .error e => .error e
+    | .ok t => .ok (.str (String.ofList t))
+
+theorem ktFinish_single_skip (fi : Bool → Val → Except Exc Val) (obj : Val) (rs : RSpec)
+    (h : (rs.hasRecursed || rs.isFlat) = true) :
+    ktFinish fi [.fld obj rs] = finText obj rs.formatSpec := by
+  unfold ktFinish finText
+  simp only [h, Bool.not_true]
+  by_cases hb : rs.formatSpec = []
+  · simp [hb]
+  · cases hf : formatField obj rs.formatSpec <;> simp [hb, hf]
+
+theorem ktFinish_single_go (fi : Bool → Val → Except Exc Val) (obj : Val) (rs : RSpec)
+    (h : (rs.hasRecursed || rs.isFlat) = false) :
+    ktFinish fi [.fld obj rs] =
+      (match fi rs.isRecursive obj with
+       | .error e => .error e
+       | .ok o => finText o rs.formatSpec) := by
+  unfold ktFinish finText
+  simp only [h, Bool.not_false, if_true]
+  cases fi rs.isRecursive obj with
+  | error e => rfl
+  | ok o =>
+    by_cases hb : rs.formatSpec = []
+    · simp [hb]
+    · cases hf : formatField o rs.formatSpec <;> simp [hb, hf]
+
+theorem spec_tail (o : Val) (spec : List Char) :
+    (if spec = [] then (pure o : Except Exc Val)
+     else do
+       let t ← formatField o spec
+       pure (.str (String.ofList t))) = finText o spec := by
+  unfold finText
+  by_cases hb : spec = []
+  · simp [hb, pure, Except.pure]
+  · cases hf : formatField o spec <;> simp [hb, hf, bind, Except.bind, pure, Except.pure]
+
+/-- the object of an expression in each of the three modes -/
+theorem fieldObj_ff (deep : Bool → Val → Except Exc Val) (ctx : Ctx) (isRec : Bool) (f : FieldT)
+    (h : Spec.isFf f.spec = true) :
+    Spec.fieldObj deep ctx isRec f =
+      (match getField ctx f.name with
+       | .error e => .error e
+       | .ok obj => convertField obj f.conv) := by
+  have hrf : Spec.isRf f.spec = false := by
+    cases h' : Spec.isRf f.spec
+    · rfl
+    · have := isRf_isFf_excl _ h'; rw [h] at this; cases this
+  simp only [Spec.fieldObj, h, hrf, bind, Except.bind, pure, Except.pure]
+  cases getField ctx f.name <;> simp
+
+theorem fieldObj_rec (deep : Bool → Val → Except Exc Val) (ctx : Ctx) (isRec : Bool) (f : FieldT)
+    (h : (Spec.isRf f.spec || (isRec && !Spec.isFf f.spec)) = true) :
+    Spec.fieldObj deep ctx isRec f =
+      (match getField ctx f.name with
+       | .error e => .error e
+       | .ok obj => match deep true obj with
+         | .error e => .error e
+         | .ok o => convertField o f.conv) := by
+  simp only [Spec.fieldObj, h, bind, Except.bind, pure, Except.pure]
+  cases getField ctx f.name with
+  | error e => rfl
+  | ok obj => simp only [if_true]; cases deep true obj <;> rfl
+
+theorem fieldObj_plain (deep : Bool → Val → Except Exc Val) (ctx : Ctx) (isRec : Bool) (f : FieldT)
+    (h : (Spec.isRf f.spec || (isRec && !Spec.isFf f.spec)) = false) :
+    Spec.fieldObj deep ctx isRec f =
+      (match getField ctx f.name with
+       | .error e => .error e
+       | .ok obj => convertField obj f.conv) := by
+  simp only [Spec.fieldObj, h, bind, Except.bind, pure, Except.pure]
+  cases getField ctx f.name <;> simp
+
 /-- the `len(result) == 1` rule and the join, against the documented cases -/
-theorem ktFinish_spec (fi : Bool → Val → Except Exc Val) (ctx : Ctx) (isRec : Bool) (ps : List Part) :
+theorem ktFinish_spec (fi : Bool → Val → Except Exc Val) (ctx : Ctx) (isRec : Bool) (ps : List Part)
+    (hconv : ConvOk isRec ps) :
     (match mapE (entryOf fi ctx isRec) ps with
      | .error e => .error e
      | .ok es => ktFinish fi es) = Spec.format fi ctx isRec ps := by
-  match ps with
-  | [] => simp [mapE, ktFinish, joinEntries, Spec.format, Spec.formatFlat, Spec.resolve, Spec.render, bind, Except.bind, pure, Except.pure]
-  | [.lit t] => simp [mapE, entryOf, ktFinish, Spec.format, pure, Except.pure]
-  | [.fld f] =>
-    simp only [mapE, entryOf, Spec.format, Spec.formatSingle, bind, Except.bind, pure, Except.pure]
-    cases Spec.fieldObj fi ctx isRec f with
-    | error e => rfl
-    | ok obj =>
-      simp only [ktFinish, rsOf_formatSpec, rsOf_isRecursive]
-      have hs := rsOf_skip isRec f.spec
-      by_cases hc : (Spec.isRf f.spec || Spec.isFf f.spec || isRec) = true
-      · rw [hc] at hs
-        simp only [hs, hc, Bool.not_true, if_true]
-        by_cases hb : Spec.specBody f.spec = []
-        · simp [hb]
-        · simp only [hb, if_false, ne_eq, not_false_eq_true, if_true]
-          cases formatField obj (Spec.specBody f.spec) <;> simp
-      · have hc' : (Spec.isRf f.spec || Spec.isFf f.spec || isRec) = false := by simpa using hc
-        rw [hc'] at hs
-        have hrf : Spec.isRf f.spec = false := by
-          cases h1 : Spec.isRf f.spec <;> simp_all
-        simp only [hs, hc', Bool.not_false, if_true, hrf]
-        cases fi false obj with
-        | error e => simp
-        | ok o =>
-          by_cases hb : Spec.specBody f.spec = []
-          · simp [hb]
-          · simp only [hb, if_false, ne_eq, not_false_eq_true, if_true]
-            cases formatField o (Spec.specBody f.spec) <;> simp
-  | p :: q :: rest =>
+  match ps, hconv with
+  | [], _ => simp [mapE, ktFinish, joinEntries, Spec.format, Spec.formatFlat, Spec.resolve, Spec.render, bind, Except.bind, pure, Except.pure]
+  | [.lit t], _ => simp [mapE, entryOf, ktFinish, Spec.format, pure, Except.pure]
+  | [.fld f], hconv =>
+    have hcv := hconv f rfl
+    have hL : (match mapE (entryOf fi ctx isRec) [.fld f] with
+        | .error e => .error e
+        | .ok es => ktFinish fi es) =
+        (match Spec.fieldObj fi ctx isRec f with
+         | .error e => .error e
+         | .ok obj => ktFinish fi [.fld obj (rsOf isRec f.spec)]) := by
+      simp only [mapE, entryOf]
+      cases Spec.fieldObj fi ctx isRec f <;> rfl
+    rw [hL]
+    have hs := rsOf_skip isRec f.spec
+    simp only [Spec.format, Spec.formatSingle, spec_tail, bind, Except.bind, pure, Except.pure]
+    -- the three documented modes
+    by_cases hff : Spec.isFf f.spec = true
+    · -- flat
+      rw [fieldObj_ff _ _ _ _ hff]
+      have hs' : ((rsOf isRec f.spec).hasRecursed || (rsOf isRec f.spec).isFlat) = true := by
+        rw [hs, hff]; simp
+      cases hgf : getField ctx f.name with
+      | error e => rfl
+      | ok obj0 =>
+        simp only [hff, if_true]
+        cases hc : convertField obj0 f.conv with
+        | error e => rfl
+        | ok obj => simp only []; rw [ktFinish_single_skip _ _ _ hs', rsOf_formatSpec]
+    · have hff' : Spec.isFf f.spec = false := by simpa using hff
+      by_cases hrec : (Spec.isRf f.spec || isRec) = true
+      · -- recursive: recursion first, then conversion
+        have hcond : (Spec.isRf f.spec || (isRec && !Spec.isFf f.spec)) = true := by
+          simp only [hff', Bool.not_false, Bool.and_true]; exact hrec
+        rw [fieldObj_rec _ _ _ _ hcond]
+        have hs' : ((rsOf isRec f.spec).hasRecursed || (rsOf isRec f.spec).isFlat) = true := by
+          rw [hs]; cases h1 : Spec.isRf f.spec <;> cases h3 : isRec <;> simp_all
+        cases hgf : getField ctx f.name with
+        | error e => rfl
+        | ok obj0 =>
+          simp only [hff', hrec, Bool.false_eq_true, if_false]
+          cases hd : fi true obj0 with
+          | error e => rfl
+          | ok o =>
+            simp only []
+            cases hc : convertField o f.conv with
+            | error e => rfl
+            | ok obj => simp only []; rw [ktFinish_single_skip _ _ _ hs', rsOf_formatSpec]
+      · -- default: no conversion (hypothesis), recursive formatting with the flag off
+        have hrec' : (Spec.isRf f.spec || isRec) = false := by simpa using hrec
+        have hrf : Spec.isRf f.spec = false := by cases h : Spec.isRf f.spec <;> simp_all
+        have hir : isRec = false := by cases h : isRec <;> simp_all
+        have hnone : f.conv = none := by
+          rcases hcv with h | h | h | h
+          · exact h
+          · rw [hrf] at h; cases h
+          · rw [hff'] at h; cases h
+          · rw [hir] at h; cases h
+        subst hir
+        have hcond : (Spec.isRf f.spec || (false && !Spec.isFf f.spec)) = false := by simp [hrf]
+        rw [fieldObj_plain _ _ _ _ hcond]
+        have hs' : ((rsOf false f.spec).hasRecursed || (rsOf false f.spec).isFlat) = false := by
+          rw [hs, hrf, hff']; rfl
+        cases hgf : getField ctx f.name with
+        | error e => rfl
+        | ok obj0 =>
+          simp only [hff', hrf, hnone, convertField_none, Bool.false_eq_true, if_false, Bool.or_false]
+          rw [ktFinish_single_go _ _ _ hs', rsOf_formatSpec, rsOf_isRecursive, hrf]
+          cases fi false obj0 <;> rfl
+  | p :: q :: rest, _ =>
     have hfmt : Spec.format fi ctx isRec (p :: q :: rest) = Spec.formatFlat fi ctx isRec (p :: q :: rest) := by
       cases p <;> rfl
     rw [hfmt]
@@ -293,13 +441,14 @@ theorem ktFinish_spec (fi : Bool → Val → Except Exc Val) (ctx : Ctx) (isRec 
         cases Spec.render (List.map Entry.toSum (e1 :: e2 :: es')) <;> rfl
 
 /-- **`_format_keep_type` computes the documented result** on every string that parses and whose
-    fields are named references with specs free of nested fields. -/
+    fields are named references with specs free of nested fields (and, for a single expression with a
+    conversion, that is recursive or flat — `ConvOk`). -/
 theorem keepType_refines_spec (fi : Bool → Val → Except Exc Val) (ctx : Ctx) (isRec : Bool) (s : List Char)
-    (ts : List Tup) (hp : parseTuples s = (ts, none)) (hg : GoodTups ts) :
+    (ts : List Tup) (hp : parseTuples s = (ts, none)) (hg : GoodTups ts) (hc : ConvOk isRec (parts ts)) :
     keepType fi ctx isRec s = Spec.format fi ctx isRec (parts ts) := by
   unfold keepType
   simp only [hp]
-  rw [ktLoop_good _ _ _ _ _ _ hg, ← ktFinish_spec]
+  rw [ktLoop_good _ _ _ _ _ _ hg, ← ktFinish_spec _ _ _ _ hc]
   cases mapE (entryOf fi ctx isRec) (parts ts) <;> simp
 
 end Pypyr.Format
